@@ -3,6 +3,7 @@
 package xexporterhelper
 
 import (
+	"go.opentelemetry.io/collector/exporter/exporterhelper/internal/request"
 	"context"
 	"fmt"
 	"strings"
@@ -97,6 +98,15 @@ func c04ObsProfiles(r c04Request) (items []string, count, units, bytes int) {
 		}
 	}
 	return items, r.ItemsCount(), units, len(b)
+}
+
+func init() {
+	c04RealUnit = "batcher-real-profiles"
+	c04RealSignals = []c04RealSig{
+		{c04Profiles, func() map[exporterhelper.RequestSizerType]request.Sizer[exporterhelper.Request] {
+			return NewProfilesQueueBatchSettings().Sizers
+		}},
+	}
 }
 
 func TestVerif(t *testing.T) {
